@@ -259,8 +259,10 @@ func vspecSorted(xs []string) string {
 	return strings.Join(s, ",")
 }
 
-// a = {#products in the link, #local files}
+// a = {#products in the link, #local files, 1: the link's hash objects may hold other algorithms than the requested one}
 func vh_C13_matchproducts(a []int) {
+	shapes := len(a) > 2 && a[2] == 1
+	otherAlgs := [3]bool{}
 	names := []string{"f1", "f2", "f3"}
 	link := &Link{Type: "link", Products: map[string]HashObj{}}
 	local := map[string]HashObj{}
@@ -271,6 +273,22 @@ func vh_C13_matchproducts(a []int) {
 		inLink[k] = true
 		linkH[k] = vPick("product.hash", "11", "22")
 		link.Products[names[k]] = HashObj{"sha256": linkH[k]}
+		if shapes {
+			// recorded with another algorithm, with an additional one, or without any digest: not the same hash object
+			switch vChoice("product.algs", 4) {
+			case 1:
+				link.Products[names[k]] = HashObj{"sha512": linkH[k]}
+				otherAlgs[k] = true
+			case 2:
+				link.Products[names[k]] = HashObj{"sha256": linkH[k], "sha512": "ff"}
+				otherAlgs[k] = true
+			case 3:
+				link.Products[names[k]] = HashObj{}
+				otherAlgs[k] = true
+			default:
+				otherAlgs[k] = false
+			}
+		}
 	}
 	for i := 0; i < a[1]; i++ {
 		k := vChoice("local", 3)
@@ -287,7 +305,7 @@ func vh_C13_matchproducts(a []int) {
 			wOnly = append(wOnly, names[k])
 		case !inLink[k] && inLocal[k]:
 			wNot = append(wNot, names[k])
-		case inLink[k] && inLocal[k] && linkH[k] != localH[k]:
+		case inLink[k] && inLocal[k] && (linkH[k] != localH[k] || otherAlgs[k]):
 			wDiff = append(wDiff, names[k])
 		}
 	}
@@ -568,6 +586,65 @@ func vh_C16_calls(a []int) {
 }
 
 func init() { vhRegister("vh_C16_calls", vh_C16_calls) }
+
+// vhSpare: a slice built the usual way - with spare capacity behind its elements
+func vhSpare(vals ...string) []string {
+	s := make([]string, 0, len(vals)+4)
+	return append(s, vals...)
+}
+
+// vhUntouched: neither the elements nor the spare capacity behind them were written
+func vhUntouched(s []string, vals ...string) bool {
+	if len(s) != len(vals) || cap(s) != len(vals)+4 {
+		return false
+	}
+	ok := true
+	for i, v := range s[:cap(s)] {
+		want := ""
+		if i < len(vals) {
+			want = vals[i]
+		}
+		ok = vAnd(ok, vEqStr(v, want))
+	}
+	return ok
+}
+
+// vh_C16_shared: C16 - calls that are handed the same read-only configuration (path lists, exclude patterns,
+// algorithm lists, strip prefixes, the command) are independent only if no call writes to what it is handed:
+// neither the elements nor the spare capacity behind them.  a = {api: 0 run, 1 record start/stop, 2 match-products}
+func vh_C16_shared(a []int) {
+	vhWorld, vhSnapEvents = 0, nil
+	vhSnapLineNorm, vhSnapFollow, vhExitStatus = vBool("line-normalization"), vBool("follow-symlink-dirs"), 0
+	defer func() { vhSnapLineNorm, vhSnapFollow, vhExitStatus = true, true, 0 }()
+	mat, prod, cmd := vhSpare("MAT"), vhSpare("PROD"), vhSpare("make", "all")
+	algs, excl, strip := vhSpare("sha512"), vhSpare("EXCL"), vhSpare("STRIP")
+	key := Key{}
+	if vBool("signed") {
+		key = vhEdKey(0, true)
+	}
+	var err error
+	switch a[0] {
+	case 0:
+		_, err = InTotoRun("step", "RUNDIR", mat, prod, cmd, key, algs, excl, strip, vhSnapLineNorm, vhSnapFollow, vBool("dsse"))
+	case 1:
+		var pre Metadata
+		pre, err = InTotoRecordStart("step", mat, key, algs, excl, strip, vhSnapLineNorm, vhSnapFollow, vBool("dsse"))
+		if err == nil {
+			_, err = InTotoRecordStop(pre, prod, key, algs, excl, strip, vhSnapLineNorm, vhSnapFollow, vBool("dsse"))
+		}
+	case 2:
+		vhLocalArtifacts = map[string]HashObj{"f1": {"sha512": "11"}}
+		link := &Link{Type: "link", Products: map[string]HashObj{"f1": {"sha512": "11"}}}
+		_, _, _, err = InTotoMatchProducts(link, prod, algs, excl, strip)
+	}
+	vObserve("shared", a[0], err == nil)
+	vAssert("C16.a-call-writes-neither-to-the-lists-it-is-handed-nor-behind-them",
+		vAnd(vhUntouched(mat, "MAT"), vAnd(vhUntouched(prod, "PROD"), vAnd(vhUntouched(cmd, "make", "all"),
+			vAnd(vhUntouched(algs, "sha512"), vAnd(vhUntouched(excl, "EXCL"), vhUntouched(strip, "STRIP")))))))
+	vReach("C16.end")
+}
+
+func init() { vhRegister("vh_C16_shared", vh_C16_shared) }
 
 // vh_C09_recorddir: what an inspection records of the verification directory (RunInspections records "."
 // or the run directory without following directory symlinks) is exactly the files present — the C13 walk
